@@ -152,6 +152,17 @@ def interval(t: Term) -> Optional[Tuple[Term, Term]]:
             a = t[2]
             return (ZERO, a[0]) if len(a) == 1 else (a[0], a[1]) if len(a) == 2 else None
         return interval(t[2][0])
+    if t[0] == "comp" and len(t) == 4 and t[1] == "list" and len(t[3]) == 1 and not t[3][0][1]:
+        # [c + x for x in <index range>]: the range shifted by c
+        dom_iv = interval(t[3][0][0])
+        bnd = subterms(t[2], lambda x: x[0] == "bound")
+        if dom_iv is not None and len(set(bnd)) == 1:
+            coeffs, _k = as_lin(t[2])
+            if coeffs.get(bnd[0]) == 1:
+                rest = t_add(t[2], bnd[0], -1)
+                if not subterms(rest, lambda x: x[0] == "bound"):
+                    return (t_add(rest, dom_iv[0]), t_add(rest, dom_iv[1]))
+        return None
     if t[0] == "lin":
         arrs = [(a, c) for a, c in t[1] if interval(a) is not None and a[0] == "call"]
         if len(arrs) == 1 and arrs[0][1] == 1:
@@ -520,6 +531,8 @@ def x9(model: Model, rep: Report):
                       what="the kernel does not span cycle_length * repetitions indices from its start", detail=f"stop:{int(h)}:{int(fs)}")
             stf, states = prop("contained_states")
             want_states = [("enum", "StateKey", f"STATE_{k}") for k in range(2 + int(fs))]
+            if states[0] != "list" or not all(x[0] == "enum" for x in states[1]):
+                raise AnalysisError(f"GeneralCalibrationIndexKernel.contained_states[{tag}]: {show(states)[:140]} is not a list of state keys once the flags are fixed; not read")
             rep.check(states[0] == "list" and list(states[1]) == want_states, "C12.X9", f"GeneralCalibrationIndexKernel.contained_states[{tag}]", stf.loc,
                       found=show(states), required="[" + ", ".join(show(x) for x in want_states) + "]", what="contained states are not |0>, |1> (and |2> with the f-state)",
                       detail=f"states:{int(h)}:{int(fs)}")
@@ -703,8 +716,13 @@ def x1(model: Model, rep: Report):
         if ok:
             d = dict(sts[0][3][2])
             st = d.get("index_offset_strategy")
-            ok = st is not None and st[0] == "new" and st[1] == "RelativeIndexStrategy" and \
-                dict(st[2]).get("reference_index_kernel") == ("sub", ("attr", s, "_repetition_kernels"), lin({}, Fraction(-1))) and \
+            ref_ = dict(st[2]).get("reference_index_kernel") if st is not None and st[0] == "new" else None
+            while ref_ is not None and ref_[0] == "var" and len(ref_) == 4:
+                ref_ = ref_[3]
+            # the list may be reached through the local it was built in (``chain = []; self._repetition_kernels = chain; ... chain[-1]``): the same list object
+            lists_ = [("attr", s, "_repetition_kernels")] + [e.term[3] for e in p.events if e.kind == "store" and e.term[2] == "_repetition_kernels" and e.term[1] == s]
+            last_ok = ref_ is not None and ref_[0] == "sub" and ref_[2] == lin({}, Fraction(-1)) and any(ref_[1] == l_ or (l_[0] == "var" and ref_[1][:2] == l_[:2]) for l_ in lists_)
+            ok = st is not None and st[0] == "new" and st[1] == "RelativeIndexStrategy" and last_ok and \
                 d.get("heralded_initialization") == ("attr", s, "_heralded_initialization")
         rep.check(ok, "C12.X1", "RepetitionExperimentKernel.__init__[calibration]", init.loc, found=[show(t) for t in sts], required="calibration kernel relative to the last repetition kernel, same heralded setting",
                   what="the calibration kernel is not placed right after the last repetition kernel", detail="calibration")
